@@ -39,12 +39,13 @@ func (w *LazyFlushable) InitUnderlyingDb() (kvdb.Store, error) {
 }
 
 func (w *LazyFlushable) initUnderlyingDb() (kvdb.Store, error) {
-	var err error
 	if w.underlying == devnull && w.producer != nil {
-		w.underlying, err = w.producer()
+		// keep the placeholder until the database is really open: a failed attempt must be repeatable
+		db, err := w.producer()
 		if err != nil {
 			return nil, err
 		}
+		w.underlying = db
 		w.flushableReader.underlying = w.underlying
 		w.producer = nil // need once
 	}
@@ -58,10 +59,11 @@ func (w *LazyFlushable) Flush() (err error) {
 	w.lock.Lock()
 	defer w.lock.Unlock()
 
-	w.underlying, err = w.initUnderlyingDb()
+	db, err := w.initUnderlyingDb()
 	if err != nil {
 		return err
 	}
+	w.underlying = db
 	w.flushableReader.underlying = w.underlying
 
 	return w.flush()
